@@ -4,7 +4,7 @@
 (* Sx126xWire.tla / Sx127xWire.tla / RxFetch.tla (properties C13, C17, C18).  *)
 (* Every event is an independent observation; a deviating event is printed    *)
 (* (soft mismatch) and validation continues.                                  *)
-EXTENDS RxFetch, Json, IOUtils, TLC, TLCExt
+EXTENDS RxFetch, Sx126xWire, Sx127xWire, Modulation, FiniteSets, Json, IOUtils, TLC, TLCExt
 
 Rec == ndJsonDeserialize(IOEnv.TRACE)
 
@@ -36,8 +36,409 @@ FetchCaseOk(e, c) ==
 
 FetchOk(e) == \A i \in 1..Len(e.cases) : FetchCaseOk(e, e.cases[i])
 
+
+\* ------------------------------------------------------------------ helpers on recorded transactions
+IsWrite126(t, op) == Len(t) >= 1 /\ t[1] = op
+LastIdx(txns, P(_)) ==
+    LET idx == {i \in 1..Len(txns) : P(txns[i])} IN IF idx = {} THEN 0 ELSE CHOOSE i \in idx : \A j \in idx : j <= i
+IsRegWrite126(t, addr) == Len(t) >= 4 /\ t[1] = OpWriteRegister /\ t[2] = Hi8(addr) /\ t[3] = Lo8(addr)
+ZeroRf == SubSeq(Z256, 1, 128)
+\* register file from a sparse list of <<address, value>>
+RECURSIVE RfFrom(_, _, _)
+RfFrom(rf, p, i) == IF i > Len(p) THEN rf ELSE RfFrom([rf EXCEPT ![p[i][1] + 1] = p[i][2]], p, i + 1)
+Is126(chip) == chip \in {"sx1261", "sx1262", "stm32wl-hp", "stm32wl-lp"}
+
+\* ------------------------------------------------------------------ C17: frequency
+DFreqOk(e) ==
+    LET f0 == U32(e.f0) IN
+    /\ Chk(<<"dfreq result", e.chip, f0>>, "ok", e.res)
+    /\ \A i \in 1..Len(e.cases) :
+          LET f == f0 + (i - 1) * e.step
+              txns == e.cases[i] IN
+          IF Is126(e.chip) THEN
+             /\ Chk(<<"dfreq sx126x: one SetRfFrequency transaction", f>>, TRUE, Len(txns) = 1 /\ IsSetRfFrequency(txns[1]))
+             /\ LET w == RfWordOf(txns[1]) IN
+                Chk(<<"dfreq sx126x: synthesiser word is the nearest step (error in 1/16384 Hz)", f, w, FreqErrNum126(w, f)>>,
+                    TRUE, FreqNearest126(w, f) /\ FreqWithin1Hz126(w, f))
+          ELSE LET w == FrfWordOf(X7Exec(ZeroRf, txns).rf) IN
+               Chk(<<"dfreq sx127x: synthesiser word within one step, < 62 Hz (error in 1/256 Hz)", e.chip, f, w, FreqErrNum127(w, f)>>,
+                   TRUE, FreqWithin62Hz127(w, f))
+    /\ IF Is126(e.chip) /\ e.step = 15625 THEN
+          \A i \in 1..(Len(e.cases) - 1) :
+             Chk(<<"dfreq sx126x: conversion is periodic (f + 15625 Hz -> word + 16384)", f0 + (i - 1) * e.step>>,
+                 RfWordOf(e.cases[i][1]) + 16384, RfWordOf(e.cases[i + 1][1]))
+       ELSE TRUE
+
+\* ------------------------------------------------------------------ C17: TX power
+\* the chip range of the PA path; the low-power PA below 400 MHz is limited to paDutyCycle 4 = +14 dBm (DS 13.1.14)
+PowerCase126Ok(e, c) ==
+    LET req == c[1]  res == c[2]  txns == c[3]
+        ds == DeviceSel(e.chip)
+        lfLimit == ds = 1 /\ e.band = "lf"
+        hi == IF lfLimit THEN 14 ELSE ChipMaxDbm(ds)
+        target == Clamp(req, ChipMinDbm(ds), hi)
+        ip == LastIdx(txns, LAMBDA t : IsWrite126(t, OpSetPaConfig) /\ Len(t) = 5)
+        it == LastIdx(txns, LAMBDA t : IsWrite126(t, OpSetTxParams) /\ Len(t) = 3)
+    IN IF res = "err" THEN Chk(<<"dpower sx126x: refused without a reason", e.chip, e.band, req>>, TRUE, lfLimit /\ req >= 15)
+       ELSE IF res # "ok" \/ ip = 0 \/ it = 0 THEN Chk(<<"dpower sx126x: no PA programming / panic", e.chip, e.band, req, res>>, "ok", "none")
+       ELSE LET pa == txns[ip]  tp == txns[it]
+                d == PaDecode(e.chip, pa[2], pa[3], FromByte(tp[2])) IN
+            /\ Chk(<<"dpower sx126x: deviceSel / paLut", e.chip, req>>, <<ds, 1>>, <<pa[4], pa[5]>>)
+            /\ Chk(<<"dpower sx126x: PA settings decode (table 13-21) to the request clamped into the chip range",
+                     e.chip, e.band, "req", req, "paConfig", pa, "txParams", tp, "target", target, "decoded", d>>, TRUE, target \in d)
+
+PowerCase127Ok(e, c, rf0) ==
+    LET req == c[1]  res == c[2]  txns == c[3]
+        rf == X7Exec(rf0, txns).rf
+        padac == IF e.chip = "sx1272" THEN RPaDac1272 ELSE RPaDac1276
+        d10 == PaDecode10(e.chip, rf[RPaConfig + 1], rf[padac + 1])
+        target == Clamp(req, PaMin(e.chip, e.boost), PaMax(e.chip, e.boost))
+    IN /\ Chk(<<"dpower sx127x: result", e.chip, e.boost, req>>, "ok", res)
+       /\ Chk(<<"dpower sx127x: PA path (PaSelect)", e.chip, req>>, e.boost, rf[RPaConfig + 1] \div 128)
+       /\ Chk(<<"dpower sx127x: PA registers decode to the request clamped into the range, never above it, less than 1 dB below (1/10 dB)",
+                e.chip, "boost", e.boost, "req", req, "RegPaConfig", rf[RPaConfig + 1], "RegPaDac", rf[padac + 1], "decoded", d10, "target", 10 * target>>,
+              TRUE, d10 <= 10 * target /\ 10 * target - d10 < 10)
+
+DPowerOk(e) ==
+    IF Is126(e.chip) THEN \A i \in 1..Len(e.cases) : PowerCase126Ok(e, e.cases[i])
+    ELSE LET rf0 == RfFrom(ZeroRf, e.rf, 1) IN \A i \in 1..Len(e.cases) : PowerCase127Ok(e, e.cases[i], rf0)
+
+\* ------------------------------------------------------------------ C17: symbol-count timeout
+SymbDecode126(txns) ==
+    LET ic == LastIdx(txns, LAMBDA t : IsWrite126(t, OpSetLoRaSymbNumTimeout) /\ Len(t) = 2)
+        ir == LastIdx(txns, LAMBDA t : IsRegWrite126(t, RegSynchTimeout) /\ Len(t) = 4)
+    IN [cmd |-> IF ic = 0 THEN -1 ELSE txns[ic][2], reg |-> IF ir = 0 THEN -1 ELSE txns[ir][4]]
+SymbCaseOk(e, c) ==
+    LET n == c[1]  res == c[2]  txns == c[3] IN
+    /\ Chk(<<"dsymb result", e.chip, n>>, "ok", res)
+    /\ IF Is126(e.chip) THEN
+          LET d == SymbDecode126(txns) IN
+          IF n = 0 THEN Chk(<<"dsymb sx126x: no timeout requested", n>>, [cmd |-> 0, reg |-> -1], d)
+          ELSE /\ Chk(<<"dsymb sx126x: command and register present", n>>, TRUE, d.cmd >= 0 /\ d.reg >= 0)
+               /\ Chk(<<"dsymb sx126x: programmed timeout (mantissa * 2^(2 exp + 1)) covers the request up to 248 symbols",
+                        "n", n, "reg", d.reg, "decoded", SymbDecodeReg(d.reg)>>, TRUE,
+                      SymbDecodeReg(d.reg) >= MinI(n, MaxLoRaSymbNumTimeout) /\ SymbDecodeReg(d.reg) <= MaxLoRaSymbNumTimeout)
+               /\ Chk(<<"dsymb sx126x: command byte and register agree", n>>, SymbDecodeReg(d.reg) % 256, d.cmd)
+       ELSE LET s == SymbDecode7(X7Exec(ZeroRf, txns).rf) IN
+            Chk(<<"dsymb sx127x: programmed 10-bit timeout covers the request up to 1023 symbols", e.chip, "n", n, "decoded", s>>,
+                TRUE, s >= MinI(n, MaxSymbTimeout7))
+DSymbOk(e) == \A i \in 1..Len(e.cases) : SymbCaseOk(e, e.cases[i])
+
+\* ------------------------------------------------------------------ C17: LoRaWAN adapter, ms -> symbols
+\* A single-shot window of `ms' extra milliseconds must stay open for the 12.25 preamble symbols plus ms:
+\*   S * Tsym >= 12.25 * Tsym + ms,  Tsym = 2^SF / BW (exact bandwidth num/den Hz)
+\*   <=>  (4 S - 49) * 2^SF * den * 250 >= ms * num
+Covers(s, sf, bw, ms) ==
+    LET a == 4 * s - 49
+        x == a * Pow2(sf) IN
+    IF a <= 0 THEN ms = 0 /\ a >= 0
+    ELSE IF x > 2000000 THEN TRUE                      \* beyond 1000 ms * 500 kHz / 250: covered without multiplying further
+    ELSE x * BwExactDen[bw + 1] * 250 >= ms * BwExactNum[bw + 1]
+AdapterCaseOk(e, c) ==
+    LET ms == c[1]  txns == c[2]
+        chipMax == IF Is126(e.chip) THEN MaxLoRaSymbNumTimeout ELSE MaxSymbTimeout7
+        s == IF Is126(e.chip) THEN (LET d == SymbDecode126(txns) IN IF d.reg < 0 THEN 0 ELSE SymbDecodeReg(d.reg))
+             ELSE SymbDecode7(X7Exec(ZeroRf, txns).rf)
+    IN IF s >= chipMax \/ Covers(s, e.sf, e.bw, ms) THEN TRUE
+       ELSE IF Covers(s + 1, e.sf, e.bw, ms) /\ IsAllowed("lorawan-rx-window-quarter-symbol-short")
+            THEN Known("lorawan-rx-window-quarter-symbol-short", <<e.chip, e.sf, e.bw, ms, s>>)
+       ELSE Chk(<<"symbols: receive timeout shorter than 12.25 preamble symbols + the requested margin",
+                  e.chip, "sf", e.sf, "bw", e.bw, "ms", ms, "symbols", s>>, TRUE, FALSE)
+SymbolsOk(e) ==
+    /\ Chk(<<"symbols: adapter run", e.chip, e.sf, e.bw>>, "ok", e.res)
+    /\ \A i \in 1..Len(e.cases) : AdapterCaseOk(e, e.cases[i])
+
+\* ------------------------------------------------------------------ C17: packet status, RSSI
+PktCase126Ok(e, c) ==
+    LET r0 == c[1]  r1 == c[2]  res == c[4]  rssi == c[5]  snr == c[6] IN
+    IF res = "panic" /\ r1 \in {126, 127} /\ IsAllowed("sx126x-snr-overflow")
+    THEN Known("sx126x-snr-overflow", <<r0, r1>>)
+    ELSE /\ Chk(<<"pktstatus sx126x: result", r0, r1, c[3]>>, "ok", res)
+         /\ Chk(<<"pktstatus sx126x: RSSI within 1 dB of -RssiPkt/2", "raw", r0, "reported", rssi>>, TRUE,
+                AbsI(4 * rssi - RssiQuarterDb126(r0)) < 4)
+         /\ Chk(<<"pktstatus sx126x: SNR within 1 dB of SnrPkt/4", "raw", r1, "reported", snr>>, TRUE,
+                AbsI(4 * snr - SnrQuarterDb126(r1)) < 4)
+\* SX127x (DS 5.5.5): SNR = PacketSnr/4; SNR >= 0: RSSI = offset + 16/15 PacketRssi; SNR < 0: RSSI = offset + PacketRssi + SNR
+\* (the data sheet gives the SNR < 0 formula without the 16/15 slope correction, SWL2001 and LoRaMac-node with it: both accepted;
+\* the branch and the SNR term are judged on the reported whole-dB SNR).  Units 1/15 dB.
+PktCase127Ok(e, c) ==
+    LET rr == c[1]  sr == c[2]  res == c[4]  rssi == c[5]  snr == c[6]
+        off == RssiOffset7(e.chip, IF e.band = "hf" THEN 868100000 ELSE 434000000)
+        lin == 15 * off + 16 * rr
+        raw == 15 * off + 15 * rr IN
+    /\ Chk(<<"pktstatus sx127x: result", e.chip, rr, sr>>, "ok", res)
+    /\ Chk(<<"pktstatus sx127x: SNR within 1 dB of PacketSnr/4", e.chip, "raw", sr, "reported", snr>>, TRUE,
+           AbsI(4 * snr - SnrQuarterDb7(sr)) < 4)
+    /\ Chk(<<"pktstatus sx127x: RSSI within 1 dB of the data sheet conversion", e.chip, e.band, "rssi raw", rr, "snr raw", sr,
+             "reported rssi", rssi, "reported snr", snr>>, TRUE,
+           IF snr >= 0 THEN AbsI(15 * rssi - lin) < 15
+           ELSE AbsI(15 * rssi - (lin + 15 * snr)) < 15 \/ AbsI(15 * rssi - (raw + 15 * snr)) < 15)
+PktStatusOk(e) ==
+    IF Is126(e.chip) THEN \A i \in 1..Len(e.cases) : PktCase126Ok(e, e.cases[i])
+    ELSE \A i \in 1..Len(e.cases) : PktCase127Ok(e, e.cases[i])
+RssiInstOk(e) ==
+    \A i \in 1..Len(e.cases) :
+       LET c == e.cases[i] IN
+       /\ Chk(<<"rssiinst result", e.chip, c[1]>>, "ok", c[2])
+       /\ IF Is126(e.chip) THEN Chk(<<"rssiinst sx126x: within 1 dB of -RssiInst/2", c[1], c[3]>>, TRUE, AbsI(4 * c[3] + 2 * c[1]) < 4)
+          ELSE Chk(<<"rssiinst sx127x: offset + RegRssiValue", e.chip, e.band, c[1], c[3]>>,
+                   RssiOffset7(e.chip, IF e.band = "hf" THEN 868100000 ELSE 434000000) + c[1], c[3])
+
+\* ------------------------------------------------------------------ C13: SX126x transactions
+\* prior content of a register from the case's priming list (0 when not primed)
+RECURSIVE PriorAt(_, _, _)
+PriorAt(p, addr, i) == IF i > Len(p) THEN 0 ELSE IF p[i][1] = addr THEN p[i][2] ELSE PriorAt(p, addr, i + 1)
+Prior(c, addr) == PriorAt(c.p, addr, 1)
+RetentionList(c) == [i \in 1..9 |-> Prior(c, RegRetentionList + i - 1)]
+
+Exp(name, e, c, exp) == Chk(<<"wire", e.drv, e.chip, e.op, name, "args", c.a, "prior", c.p>>, exp, c.t)
+ExpIn(name, e, c, expset) ==
+    IF c.t \in expset THEN TRUE
+    ELSE Chk(<<"wire", e.drv, e.chip, e.op, name, "args", c.a, "prior", c.p>>, CHOOSE x \in expset : TRUE, c.t)
+ResOk(e, c) == Chk(<<"wire result", e.drv, e.chip, e.op, c.a>>, "ok", c.res)
+
+\* lora-phy radio mode codes of the recorder: 0 none, 1 standby, 2 transmit, 3 receive (continuous), 4 CAD, 5 sleep, 6 receive (single)
+ModeName(code) == CASE code = 2 -> "tx" [] code \in {3, 6} -> "rx" [] code = 4 -> "cad" [] OTHER -> "idle"
+\* IRQ set-up of a mode: all enabled interrupts are routed to DIO1, DIO2/DIO3 unused, everything the mode needs is enabled
+IrqParamsOk(mode, t) ==
+    /\ Len(t) = 1 /\ Len(t[1]) = 9 /\ t[1][1] = OpSetDioIrqParams
+    /\ LET irq == t[1][2] * 256 + t[1][3]
+           dio1 == t[1][4] * 256 + t[1][5] IN
+       /\ dio1 = irq
+       /\ (irq & IrqNeeded(mode)) = IrqNeeded(mode)
+       /\ SubSeq(t[1], 6, 9) = <<0, 0, 0, 0>>
+
+\* image calibration: inside a band of table 9-2 the band's pair; elsewhere one well-formed CalibrateImage command
+CalImageOk(f, t) ==
+    /\ Len(t) = 1 /\ Len(t[1]) = 3 /\ t[1][1] = OpCalibrateImage
+    /\ LET b == CalBandOf(f) IN
+       IF b = {} THEN TRUE ELSE LET band == CalBands[CHOOSE i \in b : TRUE] IN <<t[1][2], t[1][3]>> = <<band[3], band[4]>>
+
+Init126(e, c) ==
+    LET sw == c.a[1]
+        l0 == RetentionList(c)
+        addsGain == ~RetentionHas(l0, RegRxGain) /\ l0[1] < 4
+        l1 == IF addsGain THEN RetentionAdded(l0, RegRxGain) ELSE l0
+        dio2 == e.chip \in {"sx1261", "sx1262"}
+    IN (IF dio2 THEN SetDio2AsRfSwitchCtrl(1) ELSE <<>>)
+       \o SetPacketType(1) \o SetLoRaSyncWord16(sw) \o SetBufferBaseAddress(0, 0)
+       \o AddToRetentionList(l0, RegRxGain)
+       \o (IF l0[1] >= 4 /\ ~RetentionHas(l0, RegRxGain) THEN <<>> ELSE AddToRetentionList(l1, RegTxModulation))
+
+RetentionFull(lst, addr) == ~RetentionHas(lst, addr) /\ lst[1] >= 4
+Init126Fails(c) ==
+    LET l0 == RetentionList(c)
+        l1 == IF ~RetentionHas(l0, RegRxGain) /\ l0[1] < 4 THEN RetentionAdded(l0, RegRxGain) ELSE l0
+    IN RetentionFull(l0, RegRxGain) \/ RetentionFull(l1, RegTxModulation)
+
+Wire126LoraPhy(e, c) ==
+    LET a == c.a IN
+    CASE e.op = "sleep" -> ResOk(e, c) /\ Exp("SetSleep", e, c, SetSleep(a[1] = 1))
+      [] e.op = "standby" -> ResOk(e, c) /\ Exp("SetStandby(STDBY_RC)", e, c, SetStandby(0))
+      [] e.op = "tx_start" -> ResOk(e, c) /\ Exp("SetTx(no timeout)", e, c, SetTx(0))
+      [] e.op = "cw" -> ResOk(e, c) /\ Exp("SetTxContinuousWave", e, c, SetTxContinuousWave)
+      [] e.op = "wakeup" -> ResOk(e, c) /\ Exp("GetStatus", e, c, GetStatus)
+      [] e.op = "rf_freq" -> ResOk(e, c) /\ Exp("SetRfFrequency", e, c, SetRfFrequency(a[1] * 65536 + a[2]))
+      [] e.op = "cal_image" -> ResOk(e, c) /\ Chk(<<"wire", e.drv, e.chip, e.op, "CalibrateImage (table 9-2)", a[1] * 65536 + a[2], c.t>>, TRUE,
+                                                   CalImageOk(a[1] * 65536 + a[2], c.t))
+      [] e.op = "mod_params" -> ResOk(e, c) /\ Exp("SetModulationParams + 15.1", e, c, SetModulationParams(a[1], a[2], a[3], a[4], Prior(c, RegTxModulation)))
+      [] e.op = "pkt_params" -> ResOk(e, c) /\ Exp("SetPacketParams + 15.4", e, c, SetPacketParams(a[1], a[2], a[3], a[4], a[5], Prior(c, RegIqPolarity)))
+      [] e.op = "sync_word" -> ResOk(e, c) /\ Exp("sync word registers", e, c, SetLoRaSyncWord16(a[1]))
+      [] e.op = "buffer_base" ->
+            IF a[1] > 255 \/ a[2] > 255 THEN Chk(<<"wire", e.drv, e.op, "refused", a>>, <<"err", <<>>>>, <<c.res, c.t>>)
+            ELSE ResOk(e, c) /\ Exp("SetBufferBaseAddress", e, c, SetBufferBaseAddress(a[1], a[2]))
+      [] e.op = "write_buffer" -> ResOk(e, c) /\ Exp("WriteBuffer", e, c, WriteBuffer(a[1], c.d))
+      [] e.op = "tx_power" -> ResOk(e, c) /\ ExpIn("TX clamp + SetPaConfig + SetTxParams (table 13-21)", e, c,
+                                                 SetTxPower(e.chip, a[1], IF a[2] = 1 THEN Ramp40us ELSE Ramp200us, Prior(c, RegTxClampConfig)))
+      [] e.op = "irq_params" -> ResOk(e, c) /\ Chk(<<"wire", e.drv, e.chip, e.op, "SetDioIrqParams", a, c.t>>, TRUE, IrqParamsOk(ModeName(a[1]), c.t))
+      [] e.op = "irq_process" -> ResOk(e, c) /\ Exp("GetIrqStatus, ClearIrqStatus(all) (+ 15.3 after single-mode RxDone)", e, c,
+                                                    GetIrqStatus \o ClearIrqStatus(65535) \o (IF a[1] = 6 THEN StopRtcWorkaround(Prior(c, RegEventMask)) ELSE <<>>))
+      [] e.op = "rx_start" -> ResOk(e, c) /\ Exp("StopTimerOnPreamble, symbol timeout, RX gain, SetRx", e, c,
+                                                 RxStart(CASE a[1] = 0 -> "single" [] a[1] = 1 -> "continuous" [] OTHER -> "duty", a[2], a[3], a[4], a[5]))
+      [] e.op = "cad_start" -> ResOk(e, c) /\ Exp("RX gain, SetCadParams, SetCad", e, c, CadStart(a[1], a[2]))
+      [] e.op = "pkt_status" -> ResOk(e, c) /\ Exp("GetPacketStatus", e, c, GetPacketStatus)
+      [] e.op = "rssi_inst" -> ResOk(e, c) /\ Exp("GetRssiInst", e, c, GetRssiInst)
+      [] e.op = "fetch" -> ResOk(e, c) /\ Exp("GetRxBufferStatus (+ length register) + ReadBuffer", e, c, FetchTxns(a[1], a[2], a[3], a[4]))
+      [] e.op = "init" -> Chk(<<"wire result (a full retention list is an error)", e.drv, e.chip, e.op, c.a, c.p>>,
+                              IF Init126Fails(c) THEN "err" ELSE "ok", c.res)
+                          /\ Exp("start-up sequence", e, c, Init126(e, c))
+      [] OTHER -> Chk(<<"wire: operation unknown for lora-phy", e.chip>>, "", e.op)
+
+\* The reference's functions; a rejected reference trace is a defect of the specification (tool error in the runner)
+Wire126Reference(e, c) ==
+    LET a == c.a IN
+    /\ (IF e.op = "retention_add" /\ RetentionFull(RetentionList(c), a[1])
+        THEN Chk(<<"wire result (a full retention list is an error)", e.drv, e.op, c.a, c.p>>, "err", c.res) ELSE ResOk(e, c))
+    /\ CASE e.op = "sleep" -> Exp("SetSleep", e, c, SetSleep(a[1] = 1))
+      [] e.op = "standby" -> Exp("SetStandby", e, c, SetStandby(a[1]))
+      [] e.op = "set_tx" -> Exp("SetTx (ms * 64 RTC steps)", e, c, SetTx(a[1] * 64))
+      [] e.op = "cw" -> Exp("SetTxContinuousWave", e, c, SetTxContinuousWave)
+      [] e.op = "wakeup" -> Exp("GetStatus", e, c, GetStatus)
+      [] e.op = "rf_freq" -> Exp("SetRfFrequency", e, c, SetRfFrequency(a[1] * 65536 + a[2]))
+      [] e.op = "cal_img" -> Exp("CalibrateImage", e, c, CalibrateImage(a[1], a[2]))
+      [] e.op = "cal_img_mhz" -> Exp("CalibrateImage (floor/ceil of MHz / 4)", e, c, CalImageInMhz(a[1], a[2]))
+      [] e.op = "mod_params" -> Exp("SetModulationParams + 15.1", e, c, SetModulationParams(a[1], a[2], a[3], a[4], Prior(c, RegTxModulation)))
+      [] e.op = "pkt_params" -> Exp("SetPacketParams + 15.4", e, c, SetPacketParams(a[1], a[2], a[3], a[4], a[5], Prior(c, RegIqPolarity)))
+      [] e.op = "sync_word_rmw" -> Exp("sync word read-modify-write", e, c, SetLoRaSyncWordRmw(a[1], <<Prior(c, RegLoRaSyncWord), Prior(c, RegLoRaSyncWord + 1)>>))
+      [] e.op = "buffer_base" -> Exp("SetBufferBaseAddress", e, c, SetBufferBaseAddress(a[1], a[2]))
+      [] e.op = "write_buffer" -> Exp("WriteBuffer", e, c, WriteBuffer(a[1], c.d))
+      [] e.op = "pa_cfg" -> Exp("SetPaConfig", e, c, SetPaConfig(a[1], a[2], a[3], a[4]))
+      [] e.op = "tx_params" -> Exp("SetTxParams", e, c, SetTxParams(a[1], a[2]))
+      [] e.op = "tx_clamp" -> Exp("15.2 TX clamp", e, c, TxClampWorkaround(Prior(c, RegTxClampConfig)))
+      [] e.op = "dio_irq" -> Exp("SetDioIrqParams", e, c, SetDioIrqParams(a[1], a[2], a[3], a[4]))
+      [] e.op = "clear_irq" -> Exp("ClearIrqStatus", e, c, ClearIrqStatus(a[1]))
+      [] e.op = "get_irq_status" -> Exp("GetIrqStatus", e, c, GetIrqStatus)
+      [] e.op = "stop_timer" -> Exp("StopTimerOnPreamble", e, c, StopTimerOnPreamble(a[1]))
+      [] e.op = "rx_gain" -> Exp("RX gain", e, c, SetRxGain(a[1]))
+      [] e.op = "symb_timeout" -> Exp("SetLoRaSymbNumTimeout", e, c, SetLoRaSymbNumTimeout(a[1]))
+      [] e.op = "set_rx" -> Exp("SetRx", e, c, SetRx(a[1]))
+      [] e.op = "cad_params" -> Exp("SetCadParams", e, c, SetCadParams(a[1], a[2], a[3], a[4], a[5]))
+      [] e.op = "set_cad" -> Exp("SetCad", e, c, SetCad)
+      [] e.op = "pkt_status" -> Exp("GetPacketStatus", e, c, GetPacketStatus)
+      [] e.op = "rssi_inst" -> Exp("GetRssiInst", e, c, GetRssiInst)
+      [] e.op = "rx_buffer_status" -> Exp("GetRxBufferStatus", e, c, GetRxBufferStatus)
+      [] e.op = "read_buffer" -> Exp("ReadBuffer", e, c, ReadBuffer(a[1], a[2]))
+      [] e.op = "dio2_rf_switch" -> Exp("SetDio2AsRfSwitchCtrl", e, c, SetDio2AsRfSwitchCtrl(a[1]))
+      [] e.op = "pkt_type" -> Exp("SetPacketType", e, c, SetPacketType(a[1]))
+      [] e.op = "retention_add" -> Exp("retention list", e, c, AddToRetentionList(RetentionList(c), a[1]))
+      [] OTHER -> Chk(<<"wire: operation unknown for the reference", e.chip>>, "", e.op)
+
+\* the 16-bit sync word form of lora-phy lands on the bytes the reference writes on a chip holding the reset nibbles
+ASSUME \A sw8 \in {18, 52, 0, 255, 171} :
+          SetLoRaSyncWord16(SyncWord16Of(sw8))[1] = SetLoRaSyncWordRmw(sw8, SyncWordReset)[2]
+
+
+\* ------------------------------------------------------------------ C13: SX127x register effects
+Eff7(name, e, c, eff) ==
+    LET rf0 == RfFrom(ZeroRf, c.p, 1) IN
+    IF X7EffectOk(eff, rf0, c.t) THEN TRUE
+    ELSE Chk(<<"wire", e.drv, e.chip, e.op, name, "args", c.a, "differs <<reg, before, after, owned mask, owned value>>">>,
+             [regs |-> {}, fifoOk |-> TRUE, lastOk |-> TRUE], X7Diff(eff, rf0, c.t))
+Refused7(e, c) == Chk(<<"wire", e.drv, e.chip, e.op, "must be refused without touching the chip", c.a>>, <<"err", <<>>>>, <<c.res, c.t>>)
+Rf0(c) == RfFrom(ZeroRf, c.p, 1)
+Both(e1, e2) == [e1 EXCEPT !.own = e1.own \o e2.own, !.free = e1.free \o e2.free]
+WithFree(eff, fr) == [eff EXCEPT !.free = @ \o fr]
+WithOwn(eff, ow) == [eff EXCEPT !.own = @ \o ow]
+
+\* lora-phy programs the whole RegOcp / RegLna and the upper PaRamp bits as a matter of board policy
+LoraPhyTxFree(chip) == << <<ROcp, 255>>, <<RPaRamp, 240>> >>
+
+RxStartEffect7(c, single, n) ==
+    LET rf0 == Rf0(c)
+        s == SymbDecode7(X7Exec(rf0, c.t).rf)
+        lo == MinI(n, MaxSymbTimeout7)
+        \* the programmed timeout covers the request (and is not longer than the 4-symbol minimum window when less is asked)
+        want == IF s >= lo /\ s <= MaxI(lo, 4) THEN s ELSE lo
+    IN [Effect(OpModeOwn(IF single THEN ModeRxSingle ELSE ModeRxContinuous)
+               \o << <<RFifoAddrPtr, 255, rf0[RFifoRxBaseAddr + 1]>> >>
+               \o (IF single THEN SymbTimeoutOwn(want) ELSE <<>>),
+               OpModeFree \o << <<RLna, 255>> >>
+               \o (IF single THEN <<>> ELSE << <<RModemConfig2, 3>>, <<RSymbTimeoutLsb, 255>> >>))
+        EXCEPT !.last = ROpMode]
+
+Wire127LoraPhy(e, c) ==
+    LET a == c.a  chip == e.chip IN
+    CASE e.op = "sleep" -> ResOk(e, c) /\ Eff7("sleep mode", e, c, SetMode(ModeSleep))
+      [] e.op = "standby" -> ResOk(e, c) /\ Eff7("standby mode", e, c, SetMode(ModeStandby))
+      [] e.op = "tx_start" -> ResOk(e, c) /\ Eff7("TX mode", e, c, SetMode(ModeTx))
+      [] e.op = "cad_start" -> ResOk(e, c) /\ Eff7("CAD mode", e, c, WithFree(SetMode(ModeCad), << <<RLna, 255>> >>))
+      [] e.op = "rf_freq" -> ResOk(e, c) /\ Eff7("RegFrf = round(f / Fstep) as the reference computes it", e, c, SetRfFrequency7(a[1] * 65536 + a[2]))
+      [] e.op = "mod_params" ->
+            LET sf == a[1]  bw == a[2]  f == a[5] * 65536 + a[6]
+                base == Effect(ModParamsOwn(chip, sf, bw, a[3], a[4]),
+                               IF chip = "sx1276" THEN << <<RModemConfig3, 4>> >> ELSE <<>>)
+                full == IF chip = "sx1276"
+                        THEN WithOwn(base, Errata23Own(bw) \o (IF a[7] = 1 THEN Errata21Own(bw, f) ELSE <<>>))
+                        ELSE base
+                \* what the driver documents: errata 2.3 only from 62.5 kHz upwards
+                narrow == WithOwn(base, IF a[7] = 1 THEN Errata21Own(bw, f) ELSE <<>>)
+            IN /\ ResOk(e, c)
+               /\ IF chip = "sx1276" /\ bw < 6 /\ IsAllowed("sx1276-errata-2.3-below-62khz") /\ X7EffectOk(narrow, Rf0(c), c.t)
+                  THEN Known("sx1276-errata-2.3-below-62khz", <<sf, bw>>)
+                  ELSE Eff7("modulation parameters (+ SX1276 errata 2.3, 2.1)", e, c, full)
+      [] e.op = "pkt_params" -> ResOk(e, c) /\ Eff7("packet parameters + IQ registers", e, c,
+                                                   Effect(PktParamsOwn(chip, a[1], a[2], a[3], a[4]) \o IqOwn(a[5], "both"), <<>>))
+      [] e.op = "sync_word" -> IF SyncWord16Ok(a[1]) THEN ResOk(e, c) /\ Eff7("sync word", e, c, Effect(SyncWordOwn(SyncWord8Of(a[1])), <<>>))
+                               ELSE Refused7(e, c)
+      [] e.op = "buffer_base" -> IF a[1] > 255 \/ a[2] > 255 THEN Refused7(e, c)
+                                 ELSE ResOk(e, c) /\ Eff7("FIFO base addresses", e, c, Effect(BufferBaseOwn(a[1], a[2]), <<>>))
+      [] e.op = "write_buffer" -> ResOk(e, c) /\ Eff7("payload into the FIFO at the TX base", e, c, WritePayload(Rf0(c)[RFifoTxBaseAddr + 1], c.d))
+      [] e.op = "tx_power" -> ResOk(e, c) /\ Eff7("PA configuration for the request clamped into the path's range", e, c,
+                                                 Effect(TxPowerOwn(chip, a[2], a[1], IF a[3] = 1 THEN Ramp40us7 ELSE Ramp250us7),
+                                                        PaFree(chip, a[2]) \o LoraPhyTxFree(chip)))
+      [] e.op = "irq_params" ->
+            ResOk(e, c) /\ Eff7("interrupt mask and DIO mapping of the mode", e, c,
+                                IF ModeName(a[1]) = "idle" THEN Effect(<<>>, << <<RIrqFlagsMask, 255>>, <<RDioMapping1, 255>> >>)
+                                ELSE IrqParamsEffect(ModeName(a[1])))
+      [] e.op = "rx_start" -> IF a[1] = 2 THEN Refused7(e, c)
+                              ELSE ResOk(e, c) /\ Eff7("receive start", e, c, RxStartEffect7(c, a[1] = 0, a[2]))
+      [] OTHER -> Chk(<<"wire: operation unknown for lora-phy", e.chip>>, "", e.op)
+
+Wire127Reference(e, c) ==
+    LET a == c.a  chip == e.chip IN
+    /\ ResOk(e, c)
+    /\ CASE e.op = "sleep" -> Eff7("sleep mode", e, c, SetMode(ModeSleep))
+      [] e.op = "standby" -> Eff7("standby mode", e, c, SetMode(ModeStandby))
+      [] e.op = "rf_freq" -> Eff7("RegFrf", e, c, SetRfFrequency7(a[1] * 65536 + a[2]))
+      [] e.op = "mod_params" -> Eff7("modulation parameters", e, c, Effect(ModParamsOwn(chip, a[1], a[2], a[3], a[4]), <<>>))
+      [] e.op = "pkt_params" ->
+            Eff7("packet parameters (composite: standby, FIFO bases 0, payload lengths)", e, c,
+                 Effect(PktParamsOwn(chip, a[1], a[2], a[3], a[4]) \o OpModeOwn(ModeStandby) \o BufferBaseOwn(0, 0)
+                        \o << <<RPayloadLength, 255, a[3]>>, <<RMaxPayloadLength, 255, a[3]>> >>, OpModeFree))
+      [] e.op = "sync_word8" -> Eff7("sync word", e, c, Effect(SyncWordOwn(a[1]), <<>>))
+      [] e.op = "write_buffer" -> Eff7("payload into the FIFO", e, c, WithFree(WritePayload(0, c.d), << <<RFifoTxBaseAddr, 255>> >>))
+      [] e.op = "tx_params" -> Eff7("PA registers", e, c, Effect(PaOwn(chip, a[3], a[4], a[1], a[2]), PaFree(chip, a[3])))
+      [] e.op = "irq_mask" -> Eff7("interrupt mask", e, c, Effect(<< <<RIrqFlagsMask, 255, IrqMaskReg7(a[1])>> >>, <<>>))
+      [] e.op = "symb_timeout" -> Eff7("symbol timeout", e, c, Effect(SymbTimeoutOwn(a[1]), <<>>))
+      [] e.op = "rx_start" ->
+            LET bw == a[3]  f == a[4] * 65536 + a[5]
+                errata == IF chip = "sx1276"
+                          THEN Errata21Own(bw, f) \o Errata23Own(bw)
+                               \o (IF bw < 6 THEN FrfOwn(PllWord127(f + BwHzRef[bw + 1])) ELSE <<>>)
+                          ELSE <<>>
+            IN Eff7("receive start (IQ registers, errata 2.1 / 2.3, FIFO pointer, mode)", e, c,
+                    [Effect(OpModeOwn(IF a[1] = 1 THEN ModeRxContinuous ELSE ModeRxSingle) \o << <<RFifoAddrPtr, 255, 0>> >>
+                            \o IqOwn(a[2], "rx") \o errata,
+                            OpModeFree \o IqFree("rx") \o DioFree) EXCEPT !.last = ROpMode])
+      [] e.op = "tx_start" -> Eff7("transmit start (IQ registers, mode)", e, c,
+                                   [Effect(OpModeOwn(ModeTx) \o IqOwn(a[1], "tx"), OpModeFree \o IqFree("tx") \o DioFree) EXCEPT !.last = ROpMode])
+      [] e.op = "cad_start" -> Eff7("CAD start", e, c, WithFree(SetMode(ModeCad), DioFree))
+      [] OTHER -> Chk(<<"wire: operation unknown for the reference", e.chip>>, "", e.op)
+
+\* lora-phy RF frequency events: the cases that are explained by truncating f / Fstep instead of rounding to the nearest
+\* step are one known deviation; it is reported once per event (with the number of cases), everything else case by case
+FrfTruncated(c) ==
+    LET f == c.a[1] * 65536 + c.a[2] IN
+    /\ PllWord127(f) # PllWord127Trunc(f)
+    /\ c.res = "ok"
+    /\ X7EffectOk(Effect(FrfOwn(PllWord127Trunc(f)), <<>>), Rf0(c), c.t)
+RfFreq127LoraPhyOk(e) ==
+    LET trunc == IF IsAllowed("sx127x-frf-truncated") THEN {i \in 1..Len(e.cases) : FrfTruncated(e.cases[i])} ELSE {} IN
+    /\ \A i \in (1..Len(e.cases)) \ trunc : Wire127LoraPhy(e, e.cases[i])
+    /\ IF trunc = {} THEN TRUE
+       ELSE LET j == CHOOSE i \in trunc : TRUE IN
+            Known("sx127x-frf-truncated", <<e.chip, "cases", Cardinality(trunc), "e.g. Hz", e.cases[j].a[1] * 65536 + e.cases[j].a[2]>>)
+
+Wire127Ok(e) ==
+    IF e.drv = "reference" THEN \A i \in 1..Len(e.cases) : Wire127Reference(e, e.cases[i])
+    ELSE IF e.op = "rf_freq" THEN RfFreq127LoraPhyOk(e)
+    ELSE \A i \in 1..Len(e.cases) : Wire127LoraPhy(e, e.cases[i])
+
+Wire126Ok(e) ==
+    \A i \in 1..Len(e.cases) :
+       IF e.drv = "reference" THEN Wire126Reference(e, e.cases[i]) ELSE Wire126LoraPhy(e, e.cases[i])
+
+WireOk(e) == IF Is126(e.chip) THEN Wire126Ok(e) ELSE Wire127Ok(e)
+
 Match(e) ==
     CASE e.ev = "fetch" -> FetchOk(e)
+      [] e.ev = "dfreq" -> DFreqOk(e)
+      [] e.ev = "dpower" -> DPowerOk(e)
+      [] e.ev = "dsymb" -> DSymbOk(e)
+      [] e.ev = "symbols" -> SymbolsOk(e)
+      [] e.ev = "pktstatus" -> PktStatusOk(e)
+      [] e.ev = "rssiinst" -> RssiInstOk(e)
+      [] e.ev = "wire" -> WireOk(e)
       [] OTHER -> Chk("unknown event", "", e.ev)
 
 Init == l = 1
